@@ -48,6 +48,11 @@ func nan() float64 {
 // an array VALUE that is not addressable at the call site
 func mka(n int) [3]int { return [3]int{n, n + 10, vrt.V(9100, 30)} }
 
+type wrapw struct{ W [3]int }
+
+// the array is a field of a call result: not addressable, and evaluating the operand has an effect
+func mkw(n int) wrapw { return wrapw{[3]int{n, n + 10, vrt.V(9102, 30)}} }
+
 type wide int64
 
 type flag bool
@@ -229,7 +234,15 @@ func (c *fctx) rangeStmt() []*S {
 		if r.Chance(1, 3) {
 			// the operand is an array value that cannot be sliced in place
 			pre, coll = nil, ""
-			if r.Bool() {
+			if r.Chance(1, 3) {
+				// the operand CONTAINS a call but is not one: it is evaluated (once) even when
+				// only the index is used
+				loop.E = &X{K: XRaw, S: "mkw(" + c.pure(1).str(Mode{}) + ").W"}
+				if r.Bool() {
+					form = 1 + 2*r.Intn(2) // index only / no variables
+				}
+				c.g.mark("range_array_operand_field_of_call_result")
+			} else if r.Bool() {
 				loop.E = &X{K: XCall, Name: "mka", Args: []*X{c.pure(1)}}
 			} else {
 				loop.E = &X{K: XRaw, S: fmt.Sprintf("[3]int{%s, %s, 30}", c.pure(1).str(Mode{}), c.pure(1).str(Mode{}))}
